@@ -581,7 +581,75 @@ func log2(i *big.Int) (int, bool) {
 // syntactic interval bounds (nil = unbounded)
 type boundCtx struct {
 	lo, hi map[string]*big.Int
+	lin    []*Term // linear facts e >= 0 learnt from the path condition
 }
+
+// provedNonNeg: d >= 0 follows from interval bounds plus at most two linear facts of the path condition
+func provedNonNeg(d *Term) bool {
+	if l, _ := bounds(d); l != nil && l.Sign() >= 0 {
+		return true
+	}
+	if curBounds == nil || len(curBounds.lin) == 0 || inLinSearch {
+		return false
+	}
+	inLinSearch = true
+	defer func() { inLinSearch = false }()
+	facts := curBounds.lin
+	if len(facts) > 48 {
+		facts = facts[len(facts)-48:]
+	}
+	// only facts sharing an atom with d can help
+	la := linOf(d)
+	var rel []*Term
+	for _, f := range facts {
+		lf := linOf(f)
+		share := false
+		for k := range lf.coef {
+			if _, ok := la.coef[k]; ok {
+				share = true
+				break
+			}
+		}
+		if share {
+			rel = append(rel, f)
+		}
+	}
+	for _, e1 := range rel {
+		d1 := Sub(d, e1)
+		if l, _ := bounds(d1); l != nil && l.Sign() >= 0 {
+			return true
+		}
+	}
+	if len(rel) > 12 {
+		rel = rel[len(rel)-12:]
+	}
+	for i, e1 := range rel {
+		d1 := Sub(d, e1)
+		l1 := linOf(d1)
+		for j, e2 := range facts {
+			if j == i {
+				continue
+			}
+			lf := linOf(e2)
+			share := false
+			for k := range lf.coef {
+				if _, ok := l1.coef[k]; ok {
+					share = true
+					break
+				}
+			}
+			if !share {
+				continue
+			}
+			if l, _ := bounds(Sub(d1, e2)); l != nil && l.Sign() >= 0 {
+				return true
+			}
+		}
+	}
+	return false
+}
+
+var inLinSearch bool
 
 // bounds learnt from the current path condition (set by State while it normalises terms)
 var curBounds *boundCtx
@@ -706,9 +774,13 @@ func Lt(a, b *Term) *Term {
 		return False
 	}
 	d := Sub(b, a)
-	if l, h := bounds(d); l != nil && l.Sign() > 0 {
+	if _, h := bounds(d); h != nil && h.Sign() <= 0 {
+		return False
+	}
+	if provedNonNeg(Sub(d, Int(1))) {
 		return True
-	} else if h != nil && h.Sign() <= 0 {
+	}
+	if provedNonNeg(Sub(a, b)) {
 		return False
 	}
 	return mk("<", SBool, a, b)
@@ -729,9 +801,13 @@ func Le(a, b *Term) *Term {
 		return False
 	}
 	d := Sub(b, a)
-	if l, h := bounds(d); l != nil && l.Sign() >= 0 {
+	if _, h := bounds(d); h != nil && h.Sign() < 0 {
+		return False
+	}
+	if provedNonNeg(d) {
 		return True
-	} else if h != nil && h.Sign() < 0 {
+	}
+	if provedNonNeg(Sub(Sub(a, b), Int(1))) {
 		return False
 	}
 	return mk("<=", SBool, a, b)
